@@ -3,7 +3,7 @@ from .. import c09_run as CR
 
 CLAIM = dict(
     technique="runtime monitoring of generated programs: static traits of every result type printed next to the run-time object; CLAMP / SVEC_CAPACITY hooks; sanitizers on",
-    text="The generated programs of C09 (same generator, same binaries) print for every operand, lazy view, evaluated result and index-function result TYPE what the library claims statically (meta::fixed_shape_v / fixed_dim_v / fixed_size_v / bounded_dim_v / bounded_size_v where not an error type; constant values, clipped maxima, fixed and bounded lengths of index results) next to shape()/dim()/size()/values of the run-time object and of an independent NumPy reference; fixed_* must be equal, bounds must be >=. Types with run-time freedom (clipped / bounded / hybrid / dynamic operands) are run over every primary shape the type admits under its (small) bound plus seeded samples. The clipped_integer_t clamp hook and the static_vector capacity hook must report zero violations while results are built and evaluated. Composite view operations (view of a view of depth 2 and 3: reductions / accumulations / element-wise / rearranging views over enlarging (tile, repeat, pad, broadcast_to), shrinking (sum) and joining (concatenate, add) inner views) are part of every tier over the array kinds whose result storage is inferred as fixed or bounded, with run-time inner arguments; the evaluated result must also have the shape of the lazy view it was evaluated from (a result the inferred buffer did not take is a violation). Held on the types and inputs observed (list in the evidence).",
+    text="The generated programs of C09 (same generator, same binaries) print for every operand, lazy view, evaluated result and index-function result TYPE what the library claims statically (meta::fixed_shape_v / fixed_dim_v / fixed_size_v / bounded_dim_v / bounded_size_v where not an error type; constant values, clipped maxima, fixed and bounded lengths of index results) next to shape()/dim()/size()/values of the run-time object and of an independent NumPy reference; fixed_* must be equal, bounds must be >=. Types with run-time freedom (clipped / bounded / hybrid / dynamic operands) are run over every primary shape the type admits under its (small) bound plus seeded samples. The clipped_integer_t clamp hook and the static_vector capacity hook must report zero violations while results are built and evaluated. Composite view operations (view of a view of depth 2 and 3: reductions / accumulations / element-wise / rearranging views over enlarging (tile, repeat, pad, broadcast_to), shrinking (sum) and joining (concatenate, add) inner views) are part of every tier over the array kinds whose result storage is inferred as fixed or bounded, with run-time inner arguments; the evaluated result must also have the shape of the lazy view it was evaluated from (a result the inferred buffer did not take is a violation). A deterministic core (same under every seed) runs every two-argument shape-like index function (shape_tile, broadcast_shape, shape_broadcast_to, shape_reshape, shape_matmul, shape_outer, shape_expand_dims, shape_pad, free_axes) under all 16 ordered pairs of length classes (constant / fixed / tightly bounded static_vector / dynamic) once with the second argument longer and once shorter than the first, and tile / sum(tile) / slice(tile) over operands of bounded dimension (hs_*) with index arguments longer than that bound. The static traits of a view type are printed before the view is read, so they are compared with the reference even when reading the view throws. Held on the types and inputs observed (list in the evidence).",
     note="Trusted: NumPy / Python reference, NMTOOLS_VERIF hooks in def.hpp / utl/static_vector.hpp, the allow-list of C09. Compositions are depth 1 (view), depth 2-3 (the 14 composites of vf/c09_gen.py, G.COMPOSITES) and the evaluation of each; element type int; a composite carries keepdims as a compile-time constant (a run-time bool keepdims is not evaluable for any array kind).",
     ref="DESIGN.md 3, 4/C11")
 TARGETS_QUICK = [CR.quick_targets_seed0]
